@@ -37,6 +37,12 @@ def tree_samples(rng, twins=False):
                 o[k] = rng.choice([[1, 2], ["a"], [], None])
             else:
                 o[k] = rng.choice([1, 2.5, True, "s", "red", "1", "2018-01-02", None])
+        if rng.random() < 0.2:
+            # a scalar field whose key needs an alias / metadata with awkward characters (quotes, separators, non-ASCII)
+            hk = rng.choice(gen.KEY_STYLES["punct"] + gen.KEY_STYLES["nonascii"]) + str(len(used))
+            if hk not in o and hk[0] not in "_0123456789$@#":
+                used.add(hk)
+                o[hk] = rng.choice([1, "s"])
         return o
 
     first = obj(rng.choice([1, 2, 3, 3]))
